@@ -195,13 +195,14 @@ class Log:
 
 DROP_ATTRS = re.compile(
     r"^#\s*\[\s*(async_trait|cfg_attr\s*\(.*async_trait.*|doc\b.*|allow\b.*|"
-    r"typeshare\b.*|derive\b.*|serde\b.*|instrument\b.*|tracing::instrument\b.*|"
-    r"inline\b.*|must_use\b.*|deprecated\b.*|non_exhaustive|repr\b.*|default|"
+    r"typeshare\b.*|serde\b.*|instrument\b.*|tracing::instrument\b.*|"
+    r"inline\b.*|must_use\b.*|deprecated\b.*|non_exhaustive|repr\b.*|"
     r"cfg\s*\(\s*feature\s*=\s*\"(files|search|contacts|migrate|archive|audit|"
     r"full|account|clipboard)\"\s*\)|"
     r"utoipa::path\b.*|derive_where\b.*|serde_as\b.*|serde_with\b.*|"
     r"cfg\s*\(\s*not\s*\(\s*target_arch\s*=\s*\"wasm32\"\s*\)\s*\))\s*\]$", re.S)
 
+KEEP_DERIVES = ("Default", "Clone", "Copy")
 TRACE_MACROS = ("trace", "debug", "info", "warn", "error")
 PANIC_MACROS = ("panic", "unreachable", "unimplemented", "todo")
 
@@ -235,6 +236,16 @@ def rewrite(toks, log, where, keep_attrs=()):
                 e = match_close(toks, k)
                 text = untok(toks[i:e + 1])
                 flat = " ".join(text.split())
+                md = re.match(r"^#\s*\[\s*derive\s*\((.*)\)\s*\]$", flat, re.S)
+                if md:
+                    # R6: keep only the derives that matter to the verified code
+                    names = [x.strip() for x in md.group(1).split(",") if x.strip()]
+                    keep = [x for x in names if x in KEEP_DERIVES]
+                    log.add("R6", where, flat[:80], "#[derive(%s)]" % ", ".join(keep))
+                    if keep:
+                        out.append(Tok(IDENT, "#[derive(%s)]" % ", ".join(keep), t.pos))
+                    i = e + 1
+                    continue
                 if DROP_ATTRS.match(flat) and not any(a in flat for a in keep_attrs):
                     rule = "R1" if "async_trait" in flat else (
                         "R2" if "instrument" in flat else "R6")
@@ -315,6 +326,70 @@ def rewrite(toks, log, where, keep_attrs=()):
         out.append(t)
         i += 1
     return out
+
+
+def _chain_start(st, i):
+    """st: significant tokens; st[i] is the `.` that starts `.as_slice()`.
+    Walk back over the postfix chain that is the receiver; return index of its
+    first token."""
+    j = i - 1
+    while j >= 0:
+        t = st[j]
+        if t.kind == PUNCT and t.text in (")", "]"):
+            # balanced group
+            d = 0
+            while j >= 0:
+                if st[j].kind == PUNCT and st[j].text in (")", "]"):
+                    d += 1
+                elif st[j].kind == PUNCT and st[j].text in ("(", "["):
+                    d -= 1
+                    if d == 0:
+                        break
+                j -= 1
+            # a call/index group: what precedes must be ident / path / `>`(turbofish) / another group
+            if j - 1 >= 0 and (st[j - 1].kind == IDENT or st[j - 1].text in (")", "]", "?")):
+                j -= 1
+                continue
+            return j
+        if t.kind == IDENT or t.kind == NUM:
+            if j - 1 >= 0 and st[j - 1].kind == PUNCT and st[j - 1].text in (".", "::"):
+                j -= 2
+                if st[j + 1].text == "::" and j >= 0 and st[j].kind != IDENT:
+                    return j + 1
+                continue
+            if j - 1 >= 0 and st[j - 1].kind == PUNCT and st[j - 1].text in ("&", "*") :
+                return j
+            return j
+        if t.kind == PUNCT and t.text == "?":
+            j -= 1
+            continue
+        return j + 1
+    return 0
+
+
+def rewrite_slice_try_into(text, log, where):
+    """R12a: `$recv.as_slice().try_into()` -> `slice_to_array($recv.as_slice())`
+    (std meaning of <&[u8] as TryInto<[u8; N]>>; N is inferred by rustc from the
+    expected type exactly as in the original)."""
+    pat = [".", "as_slice", "(", ")", ".", "try_into", "(", ")"]
+    while True:
+        toks = lex(text)
+        st = sig(toks)
+        hit = None
+        for i in range(len(st) - len(pat) + 1):
+            if [t.text for t in st[i:i + len(pat)]] == pat:
+                hit = i
+                break
+        if hit is None:
+            return text
+        a = _chain_start(st, hit)
+        start = st[a].pos
+        mid_end = st[hit + 3].pos + 1          # after `.as_slice()`
+        end = st[hit + 7].pos + 1              # after `.try_into()`
+        before = " ".join(text[start:end].split())
+        new = "slice_to_array(" + text[start:mid_end] + ")"
+        log.add("R12a", where, before[:100], " ".join(new.split())[:100])
+        text = text[:start] + new + text[end:]
 
 
 def relex(toks):
